@@ -34,21 +34,25 @@ class Layout:
         self.flags = []
         self.unconfigured = {}
 
+    cfg_format = "bumpver.toml"      # which file holds the configuration (bumpver.toml / pyproject.toml / setup.cfg) ...
+    cfg_variant = 0                  # ... and what other tools left in that file before it
+
     def config_text(self, commit=False, extra=None):
-        return project.bumpver_toml(self.old_version, self.vp, self.entries, commit=commit, tag=False, push=False, extra=extra)
+        return project.config_file(self.cfg_format, self.old_version, self.vp, self.entries, commit=commit, tag=False, push=False, extra=extra, variant=self.cfg_variant)[1]
 
     def materialize(self, root, vcs=None, commit=False, extra=None):
         proj = project.Project(root, vcs=vcs)
-        proj.write("bumpver.toml", self.config_text(commit=commit, extra=extra))
+        proj.write(self.cfg_format, self.config_text(commit=commit, extra=extra))
         for rel, text in list(self.files.items()) + list(self.unconfigured.items()):
             proj.write(rel, text.encode("utf-8"))
         return proj
 
 
 def generate(rng, hostile=False, regimes=("lf", "crlf", "cr", "mixed"), max_files=5, max_pats=4, shared=0.5, glob=0.15, partial=0.3, legacy=False,
-             stale=0.0, only_partial=0.0, repeat=0.15, touch=0.3, rglob=0.15):
+             stale=0.0, only_partial=0.0, repeat=0.15, touch=0.3, rglob=0.15, cfgformats=0.35):
     """stale: probability that a file still shows an OLDER version (as after a branch switch or a missed update);
     only_partial: probability that a file carries partial patterns only (copyright year, MAJOR.MINOR);
+    cfgformats: probability that the configuration lives in setup.cfg or pyproject.toml (after sections of other tools) instead of bumpver.toml;
     rglob: probability that a file in a directory is configured through a recursive glob (top/**/name) together with siblings at other depths;
     touch: probability that two occurrences sharing a line are written without anything between them (end of one = start of the other)"""
     from bumpver import v2version
@@ -159,6 +163,9 @@ def generate(rng, hostile=False, regimes=("lf", "crlf", "cr", "mixed"), max_file
             lay.entries.append((rng.choice(["./", ""]) + name if key != name else "./" + name, list(raws[k:])))
         else:
             lay.entries.append((key, list(raws)))
+    if not legacy and rng.random() < cfgformats:
+        lay.cfg_format = rng.choice(["setup.cfg", "pyproject.toml"])
+        lay.cfg_variant = rng.randrange(3)
     lay.unconfigured = {"NOTES.txt": "notes about %s\n" % old, ".hidden": old + "\r\n", "src/other.py": "# %s\n" % old}
     return lay
 
